@@ -872,6 +872,16 @@ def run(chk):
             else:
                 fails.append(info)
 
+    # ---- whole-program metamorphic renaming over the corpus
+    t_mm = time.time()
+    mfails, mstats = metamorphic(chk, binary, ik_py, unreserved, known_ids, rustc=True)
+    vlib.log("[c13] metamorphic renaming: %d programs, %d renamed variants, %d differences in %.1fs" %
+             (mstats["programs"], mstats["renamed_programs"], len(mfails), time.time() - t_mm))
+    chk.coverage["metamorphic"] = mstats
+    fails.extend(mfails)
+    unaudited = [x for x in tab.get("spelling_sites", []) if x not in AUDITED_SPELLING]
+    chk.coverage["spelling_sites"] = {"total": len(tab.get("spelling_sites", [])), "unaudited": unaudited}
+
     # ---- new unescaped sites: try to show a failing input through the position's programs
     for sid in new_sites:
         label = POSITIONS.get(sid, "unknown")
@@ -933,7 +943,10 @@ def run(chk):
             rr = results[(pos, n)]
             chk.sample("%s %s -> %s %s" % (pos, n, rr["stage"], rr["msg"][:80]))
 
+    fails.sort(key=lambda f: 0 if f.get("class") == "metamorphic-renaming" else 1)
     for f in fails[:25]:
+        if unaudited:
+            f["unaudited_spelling_decisions"] = unaudited
         if escaped_lookups:
             f["lookups_keyed_by_escaped_name"] = escaped_lookups
         chk.violation("failing-input", f)
@@ -949,6 +962,21 @@ def replay(path):
     binary = vlib.build_harness("debug")
     for v in data["violations"]:
         d = v["detail"]
+        if str(d.get("position", "")).startswith("whole-program:"):
+            cs = [{"id": ["r", "renamed"], "src": d["source"]}]
+            if d.get("base_source"):
+                cs.append({"id": ["r", "base"], "src": d["base_source"]})
+            rs = run_emit(binary, cs)
+            print("program %s, bijection %s, renaming %s" % (d["name"], d["position"], json.dumps(d.get("renaming"))[:400]))
+            print("--- renamed source\n%s" % d["source"])
+            for k in ("base", "renamed"):
+                if ("r", k) in rs:
+                    print("implementation %-8s: stage=%s syn_ok=%s %s" % (k, rs[("r", k)]["stage"], rs[("r", k)]["syn_ok"], rs[("r", k)]["msg"]))
+            if ("r", "base") in rs and rs[("r", "base")]["stage"] == "ok" and rs[("r", "renamed")]["stage"] == "ok":
+                print("oracle (tokens modulo renaming):", tokens_match(rs[("r", "base")]["tokens"], rs[("r", "renamed")]["tokens"], d.get("renaming") or {}))
+            print("oracle          : expected %s" % d.get("expected"))
+            print("recorded actual :", d.get("actual"))
+            continue
         if "position" in d and d.get("position") in TEMPLATES:
             n, pos = d["name"], d["position"]
             nb = neutral_for(n, pos)
@@ -968,3 +996,597 @@ def replay(path):
         else:
             print(json.dumps(d, indent=1))
     return 0
+
+
+# =========================================================================================== whole-program renaming
+# Metamorphic oracle: rename ALL user-chosen identifiers of a program consistently by a bijection and require the same
+# pipeline verdict and the same Rust token stream modulo the renaming. Every bijection is LENGTH-PRESERVING (prettyplease
+# re-wraps lines by width, which changes trailing commas/braces) and keeps the case class (first-letter case, leading `_`).
+
+_TOK_RE = re.compile(
+    r'(?P<com>\#[^\n]*)'
+    r'|(?P<tstr>[fFbBrR]{0,2}"""(?:\\.|[^\\])*?"""|[fFbBrR]{0,2}\'\'\'(?:\\.|[^\\])*?\'\'\')'
+    r'|(?P<str>[fFbBrR]{0,2}"(?:\\.|[^"\\\n])*"|[fFbBrR]{0,2}\'(?:\\.|[^\'\\\n])*\')'
+    r'|(?P<id>[A-Za-z_][A-Za-z0-9_]*)'
+    r'|(?P<other>.)', re.S)
+_ID_RE = re.compile(r'[A-Za-z_][A-Za-z0-9_]*')
+INCAN_SOFT = {"self", "Self", "main", "_", "validate", "new", "from_underlying", "Unit", "Some", "Ok", "Err", "None", "True", "False"}
+
+
+def incan_tokens(src):
+    out = []
+    for m in _TOK_RE.finditer(src):
+        k = m.lastgroup
+        t = m.group(0)
+        if k in ("tstr", "str"):
+            pre = re.match(r'[fFbBrR]{0,2}', t).group(0)
+            k = "fstr" if "f" in pre.lower() else "str"
+        out.append((k, t))
+    return out
+
+
+def blank_code(src):
+    """source with comments and string contents blanked (structure kept) for the binding heuristics."""
+    out = []
+    for k, t in incan_tokens(src):
+        if k == "com":
+            out.append("")
+        elif k in ("str", "fstr"):
+            out.append('""' if "\n" not in t else '""' + "\n" * t.count("\n"))
+        else:
+            out.append(t)
+    return "".join(out)
+
+
+def logical_lines(code):
+    lines, cur, depth = [], "", 0
+    for raw in code.split("\n"):
+        if not cur:
+            cur = raw
+        else:
+            cur += " " + raw.strip()
+        depth = 0
+        for ch in cur:
+            if ch in "([{":
+                depth += 1
+            elif ch in ")]}":
+                depth -= 1
+        if depth <= 0:
+            lines.append(cur)
+            cur = ""
+    if cur:
+        lines.append(cur)
+    return lines
+
+
+def split_top(s, sep=","):
+    parts, cur, d = [], "", 0
+    for ch in s:
+        if ch in "([{":
+            d += 1
+        elif ch in ")]}":
+            d -= 1
+        if ch == sep and d == 0:
+            parts.append(cur)
+            cur = ""
+        else:
+            cur += ch
+    parts.append(cur)
+    return parts
+
+
+def pattern_binders(p):
+    """lower-case identifiers of a pattern that are binders (not constructors, not path heads, not field labels)."""
+    out = []
+    for m in _ID_RE.finditer(p):
+        n = m.group(0)
+        after = p[m.end():].lstrip()[:1]
+        before = p[:m.start()].rstrip()[-1:]
+        if (n[0].islower() or (n[0] == "_" and len(n) > 1)) and after not in ("(", ".", "=") and before != ".":
+            out.append(n)
+    return out
+
+
+def declared_names(src):
+    """identifiers with a binding occurrence in this file (heuristic, line based; calibrated by the benign bijection)."""
+    names = set()
+    blocks = []  # (indent, kind)
+    for line in logical_lines(blank_code(src)):
+        s = line.strip()
+        if not s:
+            continue
+        indent = len(line) - len(line.lstrip())
+        while blocks and indent <= blocks[-1][0]:
+            blocks.pop()
+        parent = blocks[-1][1] if blocks else None
+        s2 = re.sub(r'^(pub\s+)?(async\s+)?', '', s)
+        m = re.match(r'def\s+([A-Za-z_]\w*)\s*(\[[^\]]*\])?\s*\((.*)$', s2)
+        if m:
+            names.add(m.group(1))
+            if m.group(2):
+                names.update(_ID_RE.findall(m.group(2)))
+            rest = m.group(3)
+            d, end = 1, len(rest)
+            for i, ch in enumerate(rest):
+                if ch in "([{":
+                    d += 1
+                elif ch in ")]}":
+                    d -= 1
+                    if d == 0:
+                        end = i
+                        break
+            for prm in split_top(rest[:end]):
+                pm = re.match(r'\s*(?:mut\s+)?([A-Za-z_]\w*)', prm)
+                if pm:
+                    names.add(pm.group(1))
+            blocks.append((indent, "def"))
+            continue
+        m = re.match(r'(class|model|trait|enum|newtype)\s+([A-Za-z_]\w*)\s*(\[[^\]]*\])?', s2)
+        if m:
+            names.add(m.group(2))
+            if m.group(3):
+                names.update(_ID_RE.findall(m.group(3)))
+            blocks.append((indent, m.group(1)))
+            continue
+        m = re.match(r'type\s+([A-Za-z_]\w*)\s*(\[[^\]]*\])?\s*=', s2)
+        if m:
+            names.add(m.group(1))
+            if s2.rstrip().endswith(":"):
+                blocks.append((indent, "newtype"))
+            continue
+        m = re.match(r'const\s+([A-Za-z_]\w*)', s2)
+        if m:
+            names.add(m.group(1))
+            continue
+        if s.startswith("@"):
+            continue
+        if parent == "enum":
+            m = re.match(r'([A-Za-z_]\w*)\s*(\(|$)', s)
+            if m:
+                names.add(m.group(1))
+                continue
+        if parent in ("class", "model", "trait", "newtype"):
+            m = re.match(r'(?:pub\s+)?([A-Za-z_]\w*)\s*:', s)
+            if m:
+                names.add(m.group(1))
+                continue
+        m = re.match(r'(?:import\s+\S+|from\s+\S+\s+import\s+.*?)\s+as\s+([A-Za-z_]\w*)', s)
+        if s.startswith(("import ", "from ")):
+            for am in re.finditer(r'\bas\s+([A-Za-z_]\w*)', s):
+                names.add(am.group(1))
+            continue
+        for fm in re.finditer(r'\bfor\s+(.+?)\s+in\b', s):
+            names.update(n for n in _ID_RE.findall(fm.group(1)) if n not in ("mut",))
+        m = re.match(r'case\s+(.*?)\s*:\s*$', s) or re.match(r'case\s+(.*?)\s*:', s)
+        if m:
+            pat = re.split(r'\s+if\s+', m.group(1))[0]
+            names.update(pattern_binders(pat))
+        if "=>" in s:
+            head = s.split("=>")[0]
+            if not re.search(r'(^|[^=!<>])=([^=>]|$)', head):      # a match arm `Pat(x) => ...`
+                names.update(pattern_binders(re.split(r'\s+if\s+', head)[0]))
+            for cm in re.finditer(r'\(([^()]*)\)\s*=>', s):           # closures `(a, b) => ...`
+                names.update(_ID_RE.findall(cm.group(1)))
+        m = re.match(r'(?:mut\s+|let\s+)?([A-Za-z_]\w*(?:\s*,\s*[A-Za-z_]\w*)*)\s*(?::[^=]*)?=(?!=)', s)
+        if m and not s.startswith(("return ", "if ", "elif ", "while ", "assert ")):
+            names.update(_ID_RE.findall(m.group(1)))
+        if s.endswith(":") and re.match(r'(if|elif|else|while|for|match|case|with|try|except)\b', s):
+            blocks.append((indent, "stmt"))
+    return names
+
+
+def rename_source(src, mapping):
+    out = []
+    for k, t in incan_tokens(src):
+        if k == "id":
+            out.append(mapping.get(t, t))
+        elif k == "fstr":
+            # rename identifiers inside `{...}` segments of an f-string
+            res, i, n = "", 0, len(t)
+            while i < n:
+                ch = t[i]
+                if ch == "{" and t[i:i + 2] == "{{":
+                    res += "{{"
+                    i += 2
+                elif ch == "{":
+                    j = t.find("}", i)
+                    if j < 0:
+                        res += t[i:]
+                        break
+                    res += "{" + _ID_RE.sub(lambda m: mapping.get(m.group(0), m.group(0)), t[i + 1:j]) + "}"
+                    i = j + 1
+                else:
+                    res += ch
+                    i += 1
+            out.append(res)
+        else:
+            out.append(t)
+    return "".join(out)
+
+
+def case_class(n):
+    if n.startswith("_"):
+        return "under"
+    if n[0].isupper():
+        return "const" if (len(n) > 1 and n.upper() == n and any(c.isalpha() for c in n)) else "upper"
+    return "lower"
+
+
+def _complement(n):
+    def c(ch):
+        if "a" <= ch <= "z":
+            return chr(ord("a") + ord("z") - ord(ch))
+        if "A" <= ch <= "Z":
+            return chr(ord("A") + ord("Z") - ord(ch))
+        if "0" <= ch <= "9":
+            return chr(ord("0") + ord("9") - ord(ch))
+        return ch
+    return "".join(c(ch) for ch in n)
+
+
+def _shift(n):
+    def c(ch):
+        if "a" <= ch <= "z":
+            return chr((ord(ch) - 97 + 1) % 26 + 97)
+        if "A" <= ch <= "Z":
+            return chr((ord(ch) - 65 + 1) % 26 + 65)
+        return ch
+    return "".join(c(ch) for ch in n)
+
+
+def make_bijections(names, forbidden, rng, unreserved_keywords):
+    """names: sorted renameable identifiers; forbidden(n) -> True if n may not be used as a target.
+    Returns dict kind -> mapping (partial: names whose image would clash stay unrenamed)."""
+    res = {}
+
+    def by_function(f):
+        m, used = {}, set()
+        for n in names:
+            t = f(n)
+            if t != n and not forbidden(t) and t not in used and t not in names:
+                m[n] = t
+                used.add(t)
+        return m
+
+    res["reverse"] = by_function(_complement)       # order-REVERSING on same-case strings, length preserving
+    res["shift"] = by_function(_shift)              # benign: order mostly preserved (calibration)
+    perm = {}
+    groups = {}
+    for n in names:
+        groups.setdefault((case_class(n), len(n)), []).append(n)
+    for g in groups.values():
+        if len(g) > 1:
+            sh = list(g)
+            rng.shuffle(sh)
+            perm.update({a: b for a, b in zip(g, sh) if a != b})
+    res["permute"] = perm                           # permutation among themselves (same case class and length)
+    kw = {}
+    pool = sorted(unreserved_keywords)
+    used = set()
+    for n in names:
+        if case_class(n) != "lower":
+            continue
+        cands = [k for k in pool if len(k) + 2 == len(n) and k not in used]   # `r#kw` is as wide as the original
+        if cands:
+            k = cands[rng.randrange(len(cands))]
+            kw[n] = k
+            used.add(k)
+    res["keywords"] = kw
+    return res
+
+
+DERIVED_PREFIXES = ["__incan_web_"]
+
+
+def tokens_match(base, renamed, mapping):
+    """renamed token stream == base token stream modulo the renaming (r# stripped, derived string literals mapped)."""
+    if len(base) != len(renamed):
+        return False, "length %d <> %d" % (len(base), len(renamed))
+
+    def strip(t):
+        return t[2:] if t.startswith("r#") else t
+
+    def wordmap(t):
+        return _ID_RE.sub(lambda m: mapping.get(m.group(0), m.group(0)), t)
+    for i, (a, b) in enumerate(zip(base, renamed)):
+        if a == b:
+            continue
+        sa, sb = strip(a), strip(b)
+        if sa == sb or mapping.get(sa) == sb:
+            continue
+        if any(sa.startswith(p) and sb == p + mapping.get(sa[len(p):], sa[len(p):]) for p in DERIVED_PREFIXES):
+            continue
+        if a.startswith('"') and wordmap(a) == b:
+            continue
+        return False, " ".join(base[max(0, i - 6):i + 7]) + "   <>   " + " ".join(renamed[max(0, i - 6):i + 7])
+    return True, ""
+
+
+FEATURE_PROGRAMS = {
+    "feature_validate": '''@derive(Validate)
+model Account:
+    owner: str
+    pin: str
+    level: int = 1
+
+    def validate(self) -> Result[Account, str]:
+        if len(self.pin) < 4:
+            return Err("pin too short")
+        return Ok(self)
+
+def show(acct: Account) -> str:
+    return f"{acct.owner}/{acct.pin}/{acct.level}"
+
+def main() -> None:
+    match Account.new("alice", "1234"):
+        case Ok(entry):
+            println(show(entry))
+        case Err(why):
+            println(why)
+    match Account.new("bob", "12"):
+        case Ok(entry):
+            println(show(entry))
+        case Err(why):
+            println(why)
+''',
+    "feature_mix": '''enum Shape:
+    Circle(float)
+    Rect(float, float)
+    Dot
+
+trait Named:
+    def label(self) -> str
+
+class Box2 with Named:
+    width: int
+    height: int
+
+    def label(self) -> str:
+        return f"box {self.width}x{self.height}"
+
+    def area(self) -> int:
+        return self.width * self.height
+
+type Meters = newtype int
+
+const LIMIT: int = 3
+
+def measure(shape: Shape) -> float:
+    match shape:
+        case Shape.Circle(radius):
+            return 3.0 * radius * radius
+        case Shape.Rect(wide, tall):
+            return wide * tall
+        case Shape.Dot:
+            return 0.0
+
+def pick(lo: int, hi: int) -> int:
+    return hi - lo
+
+def grow(mut items: List[int], extra: int) -> None:
+    items.append(extra)
+
+def main() -> None:
+    crate1 = Box2(width=2, height=5)
+    println(crate1.label())
+    println(crate1.area())
+    println(measure(Shape.Rect(2.0, 4.0)))
+    println(measure(Shape.Circle(1.0)))
+    println(pick(hi=10, lo=LIMIT))
+    mut bag: List[int] = [1, 2]
+    grow(bag, 7)
+    doubled = [each * 2 for each in bag]
+    lookup = {each: each + 1 for each in bag}
+    bump = (val) => val + LIMIT
+    println(len(doubled) + len(lookup) + bump(1))
+    dist = Meters(4)
+    println(dist.0)
+    for idx in range(LIMIT):
+        println(f"idx={idx} pick={pick(idx, 9)}")
+''',
+    "feature_serde": '''@derive(Serialize, Deserialize)
+model Reading:
+    sensor: str
+    amount: int
+    ok: bool
+
+def main() -> None:
+    first = Reading(sensor="t1", amount=21, ok=True)
+    println(first.to_json())
+    println(first.amount + 1)
+''',
+}
+
+
+def corpus_programs():
+    progs = {}
+    roots = ["examples", "tests/fixtures/valid", "tests/codegen_snapshots", "benchmarks", "stdlib", "tests/fixtures"]
+    for r in roots:
+        base = os.path.join(vlib.REPO, r)
+        for dp, dn, fn in os.walk(base):
+            if "invalid" in dp:
+                continue
+            for f in sorted(fn):
+                if f.endswith(".incn"):
+                    p = os.path.join(dp, f)
+                    rel = os.path.relpath(p, vlib.REPO)
+                    if rel not in progs:
+                        try:
+                            progs[rel] = open(p).read()
+                        except (OSError, UnicodeDecodeError):
+                            pass
+    te = os.path.join(vlib.REPO, "tests", "test_example.incn")
+    if os.path.exists(te):
+        progs["tests/test_example.incn"] = open(te).read()
+    for pos, t in TEMPLATES.items():
+        if not t.get("modules"):
+            progs["template:" + pos] = t["src"].replace("@N@", "zqn")
+    for k, v in FEATURE_PROGRAMS.items():
+        progs["feature:" + k] = v
+    return progs
+
+
+def metamorphic(chk, binary, ik_py, unreserved, known_ids, rustc=False):
+    """Whole-program renaming oracle. Returns (fails, stats)."""
+    progs = corpus_programs()
+    all_ids = {}
+    cand = set()
+    for pid, src in progs.items():
+        ids = set(t for k, t in incan_tokens(src) if k == "id")
+        for k, t in incan_tokens(src):
+            if k == "fstr":
+                ids.update(_ID_RE.findall(t))
+        all_ids[pid] = ids
+        cand.update(ids)
+    images = set()
+    for n in cand:
+        images.add(_complement(n))
+        images.add(_shift(n))
+    ask = sorted(cand | images)
+    vocab = {}
+    for line in vlib.run_harness(binary, ["run", "c13", "vocab"], "\n".join(ask) + "\n").split("\n"):
+        if line:
+            r = json.loads(line)
+            vocab[r["name"]] = r
+
+    def special(n):
+        v = vocab.get(n)
+        return (v is None or v["incan_keyword"] or bool(v["vocab"]) or n in INCAN_SOFT or n.startswith("__") or
+                n.startswith("test_") or n.startswith("from_") or n.startswith("zq_never"))
+
+    cases, plan = [], {}
+    for pid, src in progs.items():
+        decl = declared_names(src)
+        names = sorted(n for n in decl if not special(n) and not vocab[n]["rust_keyword"])
+        others = all_ids[pid] - set(names)
+
+        def forbidden(t, others=others):
+            return special(t) or vocab[t]["rust_keyword"] or t in others
+        rng = __import__("random").Random(chk.seed ^ (hash(pid) & 0xffff) if False else chk.seed + sum(ord(c) for c in pid))
+        bij = make_bijections(names, forbidden, rng, unreserved)
+        plan[pid] = (names, bij)
+        cases.append({"id": ["meta", pid, "base"], "src": src})
+        for kind, m in bij.items():
+            if m:
+                cases.append({"id": ["meta", pid, kind], "src": rename_source(src, m)})
+    results = run_emit(binary, cases)
+    fails, stats = [], {"programs": len(progs), "renamed_programs": 0, "base_ok": 0, "names_renamed": 0, "by_kind": {}, "excluded": []}
+    rust_programs = {}
+    for pid, (names, bij) in sorted(plan.items()):
+        b = results[("meta", pid, "base")]
+        if b["stage"] == "ok":
+            stats["base_ok"] += 1
+        for kind, m in bij.items():
+            if not m:
+                continue
+            r = results[("meta", pid, kind)]
+            stats["renamed_programs"] += 1
+            stats["names_renamed"] += len(m)
+            chk.count_case(("meta", pid, kind), nontrivial=(r["stage"] == "ok"))
+            key = "%s/%s" % (kind, "same" if True else "")
+            why = None
+            if (r["stage"], r["syn_ok"]) != (b["stage"], b["syn_ok"]):
+                why = "verdict changed: base %s -> renamed %s (%s)" % (b["stage"], r["stage"], r["msg"][:200])
+            elif b["stage"] == "ok":
+                ok, diff = tokens_match(b["tokens"], r["tokens"], m)
+                if not ok:
+                    why = "emitted Rust differs by more than the renaming: " + diff
+            d = stats["by_kind"].setdefault(kind, {"same": 0, "different": 0, "excluded": 0})
+            if why is None:
+                d["same"] += 1
+                if rustc and b["stage"] == "ok" and (chk.tier == "thorough" or pid.startswith("feature:")):
+                    rust_programs["%s|base" % pid] = b["rust"]
+                    rust_programs["%s|%s" % (pid, kind)] = r["rust"]
+                continue
+            if (pid, kind) in META_EXCLUDE or (pid, "*") in META_EXCLUDE:
+                d["excluded"] += 1
+                stats["excluded"].append("%s/%s" % (pid, kind))
+                continue
+            d["different"] += 1
+            fails.append({"position": "whole-program:" + kind, "name": pid, "class": "metamorphic-renaming",
+                          "renaming": dict(sorted(m.items())[:40]), "source": rename_source(progs[pid], m),
+                          "base_source": progs[pid],
+                          "expected": "same verdict (%s) and the same Rust tokens modulo the renaming" % b["stage"],
+                          "actual": {"stage": r["stage"], "msg": why[:600], "syn_ok": r["syn_ok"]}})
+    if rust_programs:
+        rr = rustc_batch(rust_programs, "meta")
+        for key, (ok, msg) in sorted(rr.items()):
+            pid, kind = key.rsplit("|", 1)
+            if kind == "base" or ok:
+                continue
+            if not rr.get(pid + "|base", (True, ""))[0]:
+                continue  # the base program does not build either (compiler gap unrelated to names)
+            names, bij = plan[pid]
+            fails.append({"position": "whole-program:" + kind, "name": pid, "class": "metamorphic-renaming",
+                          "renaming": dict(sorted(bij[kind].items())[:40]), "source": rename_source(progs[pid], bij[kind]),
+                          "base_source": progs[pid],
+                          "expected": "rustc accepts the renamed program as it accepts the original",
+                          "actual": {"stage": "rustc", "msg": msg}})
+        stats["rustc_programs"] = len(rust_programs)
+    if chk.tier == "thorough":
+        runs = {}
+        for pid in ("feature:feature_validate", "feature:feature_mix"):
+            b = results[("meta", pid, "base")]
+            if b["stage"] != "ok":
+                continue
+            runs[pid + "|base"] = b["rust"]
+            for kind, m in plan[pid][1].items():
+                r = results.get(("meta", pid, kind))
+                if m and r and r["stage"] == "ok":
+                    runs["%s|%s" % (pid, kind)] = r["rust"]
+        outs = run_outputs(runs, "meta")
+        stats["executed_programs"] = len(outs)
+        for key, o in sorted(outs.items()):
+            pid, kind = key.rsplit("|", 1)
+            if kind == "base":
+                continue
+            bo = outs.get(pid + "|base")
+            if bo and bo[0] and o != bo and not any(f["name"] == pid and f["position"].endswith(kind) for f in fails):
+                fails.append({"position": "whole-program:" + kind, "name": pid, "class": "metamorphic-renaming",
+                              "renaming": dict(sorted(plan[pid][1][kind].items())[:40]),
+                              "source": rename_source(progs[pid], plan[pid][1][kind]),
+                              "expected": "same build result, exit code and stdout as the original program: %r" % (bo,),
+                              "actual": {"stage": "run", "msg": repr(o)[:600]}})
+    return fails, stats
+
+
+def run_outputs(programs, tag):
+    """Build the given generated programs as bins of one cargo package (shared target dir) and run them.
+    Returns id -> (built, exit code, stdout)."""
+    d = os.path.join(vlib.BUILD, "c13-run-%s-%d" % (tag, os.getpid()))
+    shutil.rmtree(d, ignore_errors=True)
+    os.makedirs(os.path.join(d, "src", "bin"))
+    repo = os.path.realpath(vlib.REPO)
+    ids = sorted(programs)
+    with open(os.path.join(d, "Cargo.toml"), "w") as f:
+        f.write('[package]\nname = "c13run"\nversion = "0.1.0"\nedition = "2021"\n\n[workspace]\n\n[dependencies]\n'
+                'incan_stdlib = { path = "%s/crates/incan_stdlib" }\nincan_derive = { path = "%s/crates/incan_derive" }\n' % (repo, repo))
+    for k, i in enumerate(ids):
+        with open(os.path.join(d, "src", "bin", "r%03d.rs" % k), "w") as f:
+            f.write(programs[i])
+    target = os.path.join(vlib.BUILD, "gen-target" if repo == "/repo" else "gen-target-alt")
+    res = {}
+    try:
+        with vlib.Lock("c13-gen-target"):
+            rc, out, err = vlib.sh(["cargo", "build", "--offline", "-q", "--keep-going", "--bins"], cwd=d,
+                                   env={"CARGO_TARGET_DIR": target}, timeout=3000)
+        for k, i in enumerate(ids):
+            exe = os.path.join(target, "debug", "r%03d" % k)
+            if not os.path.exists(exe):
+                res[i] = (False, None, "")
+                continue
+            try:
+                p = subprocess.run([exe], capture_output=True, text=True, timeout=60)
+                res[i] = (True, p.returncode, p.stdout)
+            except subprocess.TimeoutExpired:
+                res[i] = (True, "timeout", "")
+            os.remove(exe)
+        return res
+    finally:
+        shutil.rmtree(d, ignore_errors=True)
+
+
+# (program, bijection kind) pairs where the line-based renamer itself is not safe (calibrated on the unchanged tree; each with
+# the reason). ("<program>", "*") excludes every bijection of that program.
+META_EXCLUDE = {
+}
